@@ -2212,6 +2212,25 @@ func rulePadStart(c *Ctx) {
 			if _, ok := isBuiltinCall(x, "append"); ok {
 				return isAlias(x.Call.Args[0], d+1)
 			}
+		case *ssa.MakeSlice:
+			// a fresh buffer that b was copied into from index 0 holds b's bytes at b's indices
+			copied := false
+			eachInstr(fn, func(in ssa.Instruction) {
+				call, ok := in.(*ssa.Call)
+				if !ok {
+					return
+				}
+				if cc, ok := isBuiltinCall(call, "copy"); ok {
+					dst := cc.Call.Args[0]
+					if sl, ok := dst.(*ssa.Slice); ok && (sl.Low == nil || isZero(sl.Low)) {
+						dst = sl.X
+					}
+					if dst == ssa.Value(x) && isAlias(cc.Call.Args[1], d+1) {
+						copied = true
+					}
+				}
+			})
+			return copied
 		}
 		return false
 	}
